@@ -1,6 +1,7 @@
 package otto
 
 import (
+	"regexp"
 	"strconv"
 )
 
@@ -22,9 +23,10 @@ var (
 		value: 0,
 	}
 	// The Date prototype object is a Date object whose time value is NaN (ES5 15.9.5).
-	prototypeValueDate   = invalidDateObject
+	prototypeValueDate = invalidDateObject
+	// RegExp.prototype is itself a regular expression that matches the empty string (ES5 15.10.6).
 	prototypeValueRegExp = regExpObject{
-		regularExpression: nil,
+		regularExpression: regexp.MustCompile("(?:)"),
 		global:            false,
 		ignoreCase:        false,
 		multiline:         false,
